@@ -74,40 +74,3 @@ for nm in names:
         if sim.inspect('q')!=q: bad.append((nm,'q',sim.inspect('q'),q)); break
         q=yosys_next(nm,d,e,s,r,q)
 print('flops', len(names), 'bad', bad[:8])
-# ---- C07 conditional basic
-pyrtl.reset_working_block()
-a,b,c,x,y=(pyrtl.Input(1,n) for n in 'abcxy')
-d1,d2,d3=(pyrtl.Input(3,n) for n in ('d1','d2','d3'))
-w=pyrtl.WireVector(3,'w'); r=pyrtl.Register(3,'r'); o=pyrtl.Output(3,'o'); o2=pyrtl.Output(3,'o2')
-with pyrtl.conditional_assignment:
-    with a:
-        w |= d1
-        with x:
-            r.next |= d2
-        with pyrtl.otherwise:
-            r.next |= d3
-    with b:
-        w |= d2
-    with pyrtl.otherwise:
-        r.next |= d1
-    with c:
-        w |= d3
-o<<=w; o2<<=r
-sim=pyrtl.Simulation(); rv=0; bad=[]
-for t in range(400):
-    v={n:random.randint(0,1) for n in 'abcxy'}; v.update({n:random.randint(0,7) for n in ('d1','d2','d3')})
-    sim.step(v)
-    # spec: chain a / b / otherwise / c : c comes after otherwise -> new chain
-    if v['a']: ew=v['d1']
-    elif v['b']: ew=v['d2']
-    else: ew=None
-    if ew is None and v['c']: ew=v['d3']   # 'c' after otherwise: active iff c and ... ?
-    # property: branch active when predicate holds, enclosing active, no earlier sibling since last otherwise taken
-    ew2 = v['d1'] if v['a'] else v['d2'] if v['b'] else None
-    cact = v['c']==1   # siblings since last otherwise: none
-    if sim.inspect('o2')!=rv: bad.append(('r',t))
-    if v['a']: rn=v['d2'] if v['x'] else v['d3']
-    elif v['b']: rn=rv
-    else: rn=v['d1']
-    rv=rn
-print('cond r', bad[:3])
